@@ -25,6 +25,10 @@ package refreshable
 //@   property C13
 //@   requires f != nil && f.logger != nil && f.http != nil && f.url != nil
 //@   modifies replaceCalls, replaces, cleanups, sbLen, copyFailed
+// An oversized body is a failed download (C13), never a text cut at the limit:
+// what is copied is the response body behind a reader that reports exceeding
+// the configured maximum size as an error.
+//@   atcall Copy assert an-oversized-body-is-an-error-never-a-cut: strictLimit(arg1) && limitOf(arg1) == f.maxSize && limitSrc(arg1) == resp.Body
 //@   ensures replaced-at-most-once: replaceCalls <= old(replaceCalls) + 1 && replaces <= old(replaces) + 1
 //@   ensures new-text-only-from-a-complete-download: err == nil ==> len(text) > 0 && replaces == old(replaces) + 1 && !copyFailed
 //@   ensures any-failure-before-the-replace-leaves-the-cache-file: replaceCalls == old(replaceCalls) ==> err != nil && replaces == old(replaces)
